@@ -34,7 +34,9 @@ type protoOneofV struct {
 
 var (
 	pmMsgT    = &fakeType{name: "gosmt.protoMessage", methods: map[string]bool{"Descriptor": true, "WhichOneof": true, "Interface": true, "Get": true, "IsValid": true}}
-	pmDescT   = &fakeType{name: "gosmt.protoMessageDescriptor", methods: map[string]bool{"Name": true, "FullName": true, "Fields": true, "Oneofs": true}}
+	pmDescT   = &fakeType{name: "gosmt.protoMessageDescriptor", methods: map[string]bool{"Name": true, "FullName": true, "Fields": true, "Oneofs": true, "Parent": true}}
+	// the parent of a top-level message: a file descriptor, which is not a message descriptor
+	pmFileT = &fakeType{name: "gosmt.protoFileDescriptor", methods: map[string]bool{"Path": true}}
 	pmFieldsT = &fakeType{name: "gosmt.protoFieldDescriptors", methods: map[string]bool{"ByName": true, "Len": true}}
 	pmOneofsT = &fakeType{name: "gosmt.protoOneofDescriptors", methods: map[string]bool{"ByName": true, "Len": true, "Get": true}}
 	pmFieldT  = &fakeType{name: "gosmt.protoFieldDescriptor", methods: map[string]bool{"Kind": true, "IsList": true, "Name": true, "JSONName": true}}
@@ -190,6 +192,20 @@ func (ex *Exec) protoMethod(recv iface, name string) *modelClosure {
 		switch name {
 		case "Name":
 			return mk(func(ex *Exec, fr *frame, pos token.Pos, args []value) value { return ex.strConst(protoDescName(d.st)) })
+		case "Parent":
+			// a generated Go type Outer_Inner is the message Inner declared inside Outer
+			return mk(func(ex *Exec, fr *frame, pos token.Pos, args []value) value {
+				name := d.st.Obj().Name()
+				if i := strings.LastIndex(name, "_"); i >= 0 {
+					if o, ok := d.st.Obj().Pkg().Scope().Lookup(name[:i]).(*types.TypeName); ok {
+						if pn, ok := o.Type().(*types.Named); ok {
+							return iface{pmDescT, protoDescV{pn}}
+						}
+					}
+					panic(ex.unsupported("protoreflect Parent of " + name))
+				}
+				return iface{pmFileT, nil}
+			})
 		case "Fields":
 			return mk(func(ex *Exec, fr *frame, pos token.Pos, args []value) value { return iface{pmFieldsT, protoFieldsV{d.st}} })
 		case "Oneofs":
